@@ -285,7 +285,20 @@ func LGuards(rc *RC, prop string) {
 				sites++
 				f := pathG(p)
 				nBadBefore := len(bad)
-				helper := rc.PathNewHelper(p)
+				// a helper introduced since the reviewed tree can establish a fact only where it is
+				// called before the access (or in a guard); one called after the access cannot
+				helper := rc.NewHelperIn(p.Guards...)
+				if helper == "" {
+					for _, st := range p.Steps[:min(hit+1, len(p.Steps))] {
+						if h := rc.NewHelperIn(st.Head); h != "" {
+							helper = h
+							break
+						}
+					}
+				}
+				if helper == "" && e.MustAfter != "" {
+					helper = rc.PathNewHelper(p)
+				}
 				if e.MustStep != "" {
 					found := false
 					for _, st := range p.Steps[:min(hit, len(p.Steps))] {
@@ -350,6 +363,7 @@ func LGuards(rc *RC, prop string) {
 				sort.Strings(bad)
 				bad = uniq(bad)
 				o := rc.S.Viol(e.Rule, key, pos, fmt.Sprintf("%s: %s (%s)", fk, bad[0], e.Why))
+				o.Firm = true // new helpers were already considered path by path above
 				if len(bad) > 1 {
 					o.Detail += fmt.Sprintf(" … and %d more paths", len(bad)-1)
 				}
